@@ -34,5 +34,6 @@ for name in names:
     meta["results"] = res
     meta["detected_by"] = sorted(c for c, r in res.items() if r.get("rc") == 1)
     meta["detected_with_concrete_input"] = sorted(c for c, r in res.items() if r.get("concrete_input"))
-    json.dump(meta, open(os.path.join(d, "meta.json"), "w"), indent=1)
+    if not os.environ.get("SEED_NOWRITE"):          # (a pass with another VERIF_SEED only looks for detections that depend on chance)
+        json.dump(meta, open(os.path.join(d, "meta.json"), "w"), indent=1)
     print(name, {c: (r["rc"], r.get("clause"), "concrete" if r.get("concrete_input") else ("no-failing-input" if r.get("rc") == 1 else "")) for c, r in res.items()}, flush=True)
